@@ -23,6 +23,7 @@ type c13Kind struct {
 
 var c13Kinds = []c13Kind{
 	{decl.TString, []string{"v1", `"q z"`, "a=b"}, nil},
+	{decl.TString, []string{"a #b", "x ; y", "80 #1"}, nil}, // what follows a blank and a # or ; belongs to the value
 	{decl.TInt, []string{"5", "-7", "12"}, nil},
 	{decl.TBool, []string{"true", "", "true"}, nil},
 	{decl.TBools, []string{"true", "", "true"}, nil},
@@ -73,7 +74,9 @@ func c13Decl(k int) *decl.Decl {
 	top.Groups = []*decl.Group{{Field: "Grp", Name: "Grp", Namespace: "ns", Opts: []*decl.Opt{o("Aa", "aa", "", ""), o("Ee", "ee", "e", ""),
 		o("Nn", "nn", "", "Ll")}, // its ini-name is the field name of an option of the parser's own group: before any header, the ini-name wins
 		// a namespaced group inside the namespaced group: its option's long name carries both prefixes whichever section addresses it
-		Groups: []*decl.Group{{Field: "Inner", Name: "Inner", Namespace: "in", Opts: []*decl.Opt{o("Jj", "jj", "", "")}}}}}
+		Groups: []*decl.Group{{Field: "Inner", Name: "Inner", Namespace: "in", Opts: []*decl.Opt{o("Jj", "jj", "", "")}},
+			// ... and a plain one: its option's long name carries the outer namespace only
+			{Field: "Plain", Name: "Plain", Opts: []*decl.Opt{o("Pp", "pp", "", "")}}}}}
 	sub := &decl.Cmd{Field: "Sub", Name: "sub", Opts: []*decl.Opt{o("Aa", "zz", "", ""), o("Ff", "ff", "", "")}}
 	cmd := &decl.Cmd{Field: "Cmd", Name: "cmd", SubOptional: true, Cmds: []*decl.Cmd{sub},
 		Opts:   []*decl.Opt{o("Aa", "aa", "", ""), o("Gg", "bb", "", "")},
@@ -86,8 +89,8 @@ func c13Decl(k int) *decl.Decl {
 	return d
 }
 
-var c13Sections = []string{"", "Application Options", "application OPTIONS", "Grp", "GRP", "cmd", "cmd.Sub Group", "cmd.sub group", "cmd.sub", "Cmd", "cmd.nope", "sub", "Sub Group", "MixedCase", "mixedcase", "MixedCase.Mixed Group", "MixedCase.mixed group", "Inner", "cmd.", ".cmd"}
-var c13Names = []string{"Aa", "aa", "AA", "aA", "Bb", "bb", "BB", "Cc", "cc", "a", "b", "c", "A", "s", "Ss", "longonly", "Ll", "Dd", "dd", "ns.aa", "ns.ee", "ee", "e", "Ee", "Gg", "zz", "Ff", "ff", "Hh", "hh", "hname", "HNAME", "nope", "Xx", "Yy", "K", "m", "kk", "xx", "Ii", "mx", "ns.in.jj", "in.jj", "jj", "Jj", "Nn", "ll"}
+var c13Sections = []string{"", "Application Options", "application OPTIONS", "Grp", "GRP", "cmd", "cmd.Sub Group", "cmd.sub group", "cmd.sub", "Cmd", "cmd.nope", "sub", "Sub Group", "MixedCase", "mixedcase", "MixedCase.Mixed Group", "MixedCase.mixed group", "Inner", "cmd.", ".cmd", "Plain"}
+var c13Names = []string{"Aa", "aa", "AA", "aA", "Bb", "bb", "BB", "Cc", "cc", "a", "b", "c", "A", "s", "Ss", "longonly", "Ll", "Dd", "dd", "ns.aa", "ns.ee", "ee", "e", "Ee", "Gg", "zz", "Ff", "ff", "Hh", "hh", "hname", "HNAME", "nope", "Xx", "Yy", "K", "m", "kk", "xx", "Ii", "mx", "ns.in.jj", "in.jj", "jj", "Jj", "Nn", "ll", "ns.pp", "pp", "Pp"}
 
 func init() {
 	body := func(c *explore.Ctx) {
@@ -280,7 +283,7 @@ func init() {
 		ShardDepth: 2,
 		Body:       body,
 		Rule: "declaration whose names cross (A's long name = B's field name = C's ini-name up to case; the same field name in the parser, a namespaced group, a command and a sub-subcommand; short-only, long-only and no-ini options; an ini-name inside a command's subgroup) " +
-			"x 17 option types / value notations (incl. map values containing :\" in the middle, a 70000-byte value) (incl. map values written in INI quoting, some containing colons, against their unquoted command-line equivalent) x 20 section spellings (incl. a command path with an empty component) (incl. a namespaced group nested in a namespaced group, addressed by its own section) (incl. a command whose name has upper-case letters: command names are matched exactly, group descriptions case-insensitively) (global, group description in three casings, command, command.group in two casings, sub-subcommand path, wrong casings and unknown paths) x 47 entry names (every naming of every option in several casings, namespaced long names, unknown) " +
+			"x 17 option types / value notations (incl. map values containing :\" in the middle, a 70000-byte value) (incl. map values written in INI quoting, some containing colons, against their unquoted command-line equivalent) x 21 section spellings (incl. a command path with an empty component) (incl. a namespaced group nested in a namespaced group, addressed by its own section) (incl. a command whose name has upper-case letters: command names are matched exactly, group descriptions case-insensitively) (global, group description in three casings, command, command.group in two casings, sub-subcommand path, wrong casings and unknown paths) x 50 entry names (every naming of every option in several casings, namespaced long names, unknown) " +
 			"x 1..3 repeated entries (also spread over two sections that reach the same option) x normal / as-defaults mode x {fresh parser, parser that has already read a file naming the same option by another of its names (a later read replaces, like a later command line)}; oracle: (a) the documented priority ini-name > field > namespaced long > short selects the option, unknown names/sections are errors, (b) differential: a fresh parser given the equivalent --name=value flags must end in the same option struct; " +
 			"distinct = distinct (type, section, name, repetitions, error class, options touched)",
 		Assumptions:  []string{"values without edge blanks", "a flag entry 'name = false' has no command-line equivalent and is not used"},
